@@ -1214,7 +1214,7 @@ func (ss *setSchemes) Parse(lines []string) error {
 	}
 	matches := ss.rx.FindStringSubmatch(lines[0])
 	if len(matches) > 1 && len(matches[1]) > 0 {
-		sch := strings.Split(matches[1], ", ")
+		sch := strings.Split(matches[1], ",")
 
 		schemes := []string{}
 		for _, s := range sch {
